@@ -457,6 +457,20 @@ let lifecycle args =
       Printf.sprintf "OK ok=%b same=%b expected=%s" (x_lifecycle_ok states) (states = expected) (String.concat "," (List.map cstate_name expected))
   | _ -> "BAD-ARGS"
 
+(* socks_select <required 0|1> <methods hex> ; auth_check <required> <users u:p,.. hex> <creds u:p hex | ->  *)
+let socks_select args =
+  match args with
+  | [ r; ms ] -> (match x_select_method (r = "1") (unhex ms) with Some m -> "OK " ^ string_of_int (int_of_n m) | None -> "OK none")
+  | _ -> "BAD-ARGS"
+let pair_of s = match String.split_on_char ':' s with [ u; p ] -> (unhex u, unhex p) | _ -> failwith "pair"
+let auth_check args =
+  match args with
+  | [ r; us; k ] ->
+      let users = if us = "-" then [] else List.map pair_of (String.split_on_char ',' us) in
+      let key = if k = "-" then None else Some (pair_of k) in
+      if x_auth_check (r = "1") users key then "OK true" else "OK false"
+  | _ -> "BAD-ARGS"
+
 (* ---- milu evaluator ------------------------------------------------------------------ *)
 
 exception Opaque
@@ -687,6 +701,8 @@ let run_line ovf line =
         | "milu_parse" -> milu_parse args
         | "milu_rt" -> milu_rt args
         | "lifecycle" -> lifecycle args
+        | "socks_select" -> socks_select args
+        | "auth_check" -> auth_check args
         | "cfg_table" -> cfg_table args
         | "cfg_resolve" -> cfg_resolve args
         | "idle_check" -> idle_check args
